@@ -445,6 +445,45 @@ func ruleCacheFiles(c *Check, p *Prog, rule string) {
 		} else {
 			detail = "the file is created under its final path (truncating the previous copy) and written in place"
 		}
+		// the temporary name must stay private to the writer: a loader that falls back to it reads
+		// exactly the file a crash leaves partial
+		if atomic && !tolerant {
+			tmpConsts := map[string]bool{}
+			for _, cr := range creates {
+				ArgTerm(cr, 0).Walk(func(t *Term) bool {
+					if t.Op == "const" && strings.HasPrefix(t.Name, "\"") {
+						tmpConsts[t.Name] = true
+					}
+					return true
+				})
+			}
+			for _, l := range loaders {
+				for _, b := range l.Blocks {
+					for _, in := range b.Instrs {
+						call, ok := in.(*ssa.Call)
+						if !ok {
+							continue
+						}
+						cn := commonName(call.Common())
+						if cn != "os.Open" && cn != "os.ReadFile" && cn != "os.OpenFile" {
+							continue
+						}
+						pt := TermOf(call.Common().Args[0], &Ctx{Fn: l})
+						reads := ""
+						pt.Walk(func(t *Term) bool {
+							if t.Op == "const" && tmpConsts[t.Name] {
+								reads = t.Name
+							}
+							return true
+						})
+						if reads != "" {
+							atomic = false
+							detail = "the loader " + fnShort(l) + " opens " + trunc(pt.String(), 60) + ", the writer's temporary name (" + reads + "): that is the file a crash during a save leaves partial"
+						}
+					}
+				}
+			}
+		}
 		switch {
 		case atomic:
 			c.OK(rule, inst, fnName(w), posOf(g, isCreate), "file is written under a temporary name and renamed onto the final path on every success path", true)
